@@ -115,11 +115,15 @@ fn gen_type(r: &mut Rng) -> Vec<u8> {
 pub fn gen_locale_tokens(r: &mut Rng) -> Vec<Vec<u8>> {
     let mut t = gen_li_tokens(r);
     let mut exts: Vec<Vec<Vec<u8>>> = Vec::new();
+    // one input in six is "rich": 4..10 members per container instead of 0..3
+    let rich = r.chance(1, 6);
+    let cnt = |r: &mut Rng, small: usize| if rich { 4 + r.below(7) } else { r.below(small) };
+    if rich { for _ in 0..cnt(r, 0) { let v = gen_variant(r); t.push(v); } }
     if r.chance(1, 2) {
         let mut u = vec![b"u".to_vec()];
-        for _ in 0..r.below(3) { u.push(word(r, ALNUM, 3, 8)); }
+        for _ in 0..cnt(r, 3) { u.push(word(r, ALNUM, 3, 8)); }
         let mut keys: Vec<Vec<u8>> = Vec::new();
-        for _ in 0..r.below(4) {
+        for _ in 0..cnt(r, 4) {
             let k = gen_ukey(r);
             if keys.contains(&k) { continue; }
             keys.push(k.clone());
@@ -132,7 +136,7 @@ pub fn gen_locale_tokens(r: &mut Rng) -> Vec<Vec<u8>> {
         let mut tt = vec![b"t".to_vec()];
         if r.chance(2, 3) { tt.extend(gen_li_tokens(r)); }
         let mut keys: Vec<Vec<u8>> = Vec::new();
-        for _ in 0..r.below(3) {
+        for _ in 0..cnt(r, 3) {
             let k = gen_tkey(r);
             if keys.contains(&k) { continue; }
             keys.push(k.clone());
@@ -145,7 +149,7 @@ pub fn gen_locale_tokens(r: &mut Rng) -> Vec<Vec<u8>> {
     for e in exts { t.extend(e); }
     if r.chance(1, 4) {
         t.push(b"x".to_vec());
-        for _ in 0..(1 + r.below(3)) { t.push(word(r, ALNUM, 1, 8)); }
+        for _ in 0..(1 + cnt(r, 3)) { t.push(word(r, ALNUM, 1, 8)); }
     }
     t
 }
@@ -516,6 +520,75 @@ fn drive_sub(r: &mut Rng, n: usize, log: &mut Log) {
     }
 }
 
+/// one container grown to 5..12 distinct members in random order (with queries in between), then shrunk in another order
+fn gen_grow_shrink(r: &mut Rng) -> Vec<Value> {
+    let k = 5 + r.below(8);
+    let kind = r.below(5);
+    let mut items: Vec<Vec<u8>> = Vec::new();
+    while items.len() < k {
+        let it = match kind {
+            0 => word(r, ALNUM, 3, 8),                                   // attributes
+            1 => { let mut x = word(r, ALNUM, 1, 1); x.extend(word(r, LOWER, 1, 1)); x }   // keyword keys
+            2 => { let mut x = word(r, LOWER, 1, 1); x.extend(word(r, DIGIT, 1, 1)); x }   // tfield keys
+            3 => word(r, ALNUM, 1, 8),                                   // private tags
+            _ => gen_variant(r),                                         // variants (set as growing lists)
+        };
+        let low = it.to_ascii_lowercase();
+        if !items.iter().any(|x| x.to_ascii_lowercase() == low) || (kind == 3 && r.chance(1, 4)) { items.push(it); }
+    }
+    let noisy = |r: &mut Rng, v: &Vec<u8>| -> Vec<u8> { if r.chance(1, 3) { v.to_ascii_uppercase() } else { v.clone() } };
+    let e: Vec<Value> = Vec::new();
+    let mut ops: Vec<Value> = Vec::new();
+    let add = |r: &mut Rng, it: &Vec<u8>, ops: &mut Vec<Value>, sofar: &[Vec<u8>]| match kind {
+        0 => ops.push(json!({"op":"set_attribute","s": bytes(&noisy(r, it)),"key":[],"vals":[]})),
+        1 => { let n = r.below(3); let vals: Vec<Value> = (0..n).map(|_| bytes(&gen_type(r))).collect();
+               ops.push(json!({"op":"set_keyword","s":[],"key": bytes(&noisy(r, it)),"vals": vals})) }
+        2 => { let n = 1 + r.below(2); let vals: Vec<Value> = (0..n).map(|_| bytes(&gen_type(r))).collect();
+               ops.push(json!({"op":"set_tfield","s":[],"key": bytes(&noisy(r, it)),"vals": vals})) }
+        3 => ops.push(json!({"op":"add_tag","s": bytes(&noisy(r, it)),"key":[],"vals":[]})),
+        _ => { let vals: Vec<Value> = sofar.iter().chain(std::iter::once(it)).map(|v| bytes(&noisy(r, v))).collect();
+               ops.push(json!({"op":"set_variants","s":[],"key":[],"vals": vals})) }
+    };
+    let query = |r: &mut Rng, it: &Vec<u8>, ops: &mut Vec<Value>| match kind {
+        0 => ops.push(json!({"op":"has_attribute","s": bytes(&noisy(r, it)),"key":[],"vals":[]})),
+        1 => ops.push(json!({"op":"keyword","s":[],"key": bytes(&noisy(r, it)),"vals":[]})),
+        2 => ops.push(json!({"op":"tfield","s":[],"key": bytes(&noisy(r, it)),"vals":[]})),
+        3 => ops.push(json!({"op":"has_tag","s": bytes(&noisy(r, it)),"key":[],"vals":[]})),
+        _ => ops.push(json!({"op":"has_variant","s": bytes(&noisy(r, it)),"key":[],"vals":[]})),
+    };
+    let remove = |r: &mut Rng, it: &Vec<u8>, ops: &mut Vec<Value>, left: &[Vec<u8>]| match kind {
+        0 => ops.push(json!({"op":"remove_attribute","s": bytes(&noisy(r, it)),"key":[],"vals":[]})),
+        1 => ops.push(json!({"op":"remove_keyword","s":[],"key": bytes(&noisy(r, it)),"vals":[]})),
+        2 => ops.push(json!({"op":"remove_tfield","s":[],"key": bytes(&noisy(r, it)),"vals":[]})),
+        3 => ops.push(json!({"op":"remove_tag","s": bytes(&noisy(r, it)),"key":[],"vals":[]})),
+        _ => { let vals: Vec<Value> = left.iter().map(|v| bytes(v)).collect();
+               ops.push(json!({"op":"set_variants","s":[],"key":[],"vals": vals})) }
+    };
+    let _ = e;
+    // random insertion order
+    let mut order: Vec<usize> = (0..items.len()).collect();
+    for i in (1..order.len()).rev() { let j = r.below(i + 1); order.swap(i, j); }
+    let mut sofar: Vec<Vec<u8>> = Vec::new();
+    for &i in &order {
+        add(r, &items[i], &mut ops, &sofar);
+        sofar.push(items[i].clone());
+        if r.chance(1, 2) { let q = sofar[r.below(sofar.len())].clone(); query(r, &q, &mut ops); }
+        if r.chance(1, 6) { ops.push(json!({"op":"reparse","s":[],"key":[],"vals":[]})); }
+    }
+    // remove in another random order, re-adding one now and then (add-remove-add patterns)
+    let mut left = sofar.clone();
+    while !left.is_empty() {
+        let j = r.below(left.len());
+        let it = left.remove(j);
+        remove(r, &it, &mut ops, &left);
+        if r.chance(1, 2) && !left.is_empty() { let q = left[r.below(left.len())].clone(); query(r, &q, &mut ops); }
+        if r.chance(1, 3) { query(r, &it, &mut ops); }
+        if r.chance(1, 5) { add(r, &it, &mut ops, &left); left.push(it); }
+        if ops.len() > 90 { break; }
+    }
+    ops
+}
+
 fn drive_hist(r: &mut Rng, n: usize, log: &mut Log, likely: bool) {
     let mut pool: Vec<Locale> = vec![Locale::default()];
     let mut produced = 0usize;
@@ -528,9 +601,12 @@ fn drive_hist(r: &mut Rng, n: usize, log: &mut Log, likely: bool) {
         };
         log.ev(json!({"op":"start","in": bytes(&text),"out":{"k":"ok"},"st": proj_loc(&loc)}));
         produced += 1;
-        let len = 5 + r.below(56);
+        // every third history grows one container well past the sizes the small pools reach, queries it, and
+        // shrinks it again in a different order (accumulated state: binary-search positions, capacities, thresholds)
+        let scripted: Vec<Value> = if r.chance(1, 3) { gen_grow_shrink(r) } else { Vec::new() };
+        let len = if scripted.is_empty() { 5 + r.below(56) } else { scripted.len() };
         for step in 0..len {
-            let op = gen_op(r, likely);
+            let op = if scripted.is_empty() { gen_op(r, likely) } else { scripted[step].clone() };
             log.about_to(&format!("op {} on {}", op, loc), b"");
             let res = guard(|| ops::apply(&mut loc, &op));
             let out = match res { Ok(x) => x, Err(at) => json!({"k":"panic","at": short_at(&at)}) };
